@@ -96,7 +96,7 @@ theorem C03_pcr8_width {fs : Files} {lines : List Str} {a : Assembly} (h : assem
               s.pkg.additional = .numeric (d % 256).toNat (some 2) .extended false ∧
               Dist8 s4.pkg.additional x y s.pkg.size d := by
   obtain ⟨st⟩ := assemble_stages h
-  refine ⟨st.ss4, fixAll_pw st.hfix, ?_⟩
+  refine ⟨st.ss4, fixAllL_pw st.hfix, ?_⟩
   intro i s4 s hs4 hs hc hh
   obtain ⟨s3, s4', pre⟩ := st.pcr_pre hs hc
   have : s4' = s4 := by have := pre.h4; rw [hs4] at this; exact (Option.some.inj this).symm
@@ -296,7 +296,7 @@ theorem C03_pcr_field_target {fs : Files} {lines : List Str} {a : Assembly} (h :
             ∃ b t y, relIndex s4.pkg.additional = some b ∧ a.stmts[b]? = some t ∧ addrNat t = some y ∧
               Target8 s4.pkg.additional y target) := by
   obtain ⟨st⟩ := assemble_stages h
-  refine ⟨st.ss4, fixAll_pw st.hfix, ?_⟩
+  refine ⟨st.ss4, fixAllL_pw st.hfix, ?_⟩
   intro i s4 s hs4 hs hc
   obtain ⟨s3, s4', pre⟩ := st.pcr_pre hs hc
   have : s4' = s4 := by have := pre.h4; rw [hs4] at this; exact (Option.some.inj this).symm
@@ -373,7 +373,7 @@ theorem C03_pcr8_in_range {fs : Files} {lines : List Str} {a : Assembly} (h : as
           s.pkg.additional =
             .numeric (sdist16 ((target : Int) - x - s.pkg.size) % 256).toNat (some 2) .extended false := by
   obtain ⟨st⟩ := assemble_stages h
-  refine ⟨st.ss4, fixAll_pw st.hfix, ?_⟩
+  refine ⟨st.ss4, fixAllL_pw st.hfix, ?_⟩
   intro i s4 s hs4 hs hc hh
   obtain ⟨s3, s4', pre⟩ := st.pcr_pre hs hc
   have : s4' = s4 := by have := pre.h4; rw [hs4] at this; exact (Option.some.inj this).symm
@@ -615,7 +615,7 @@ theorem C03_label_offset_target {fs : Files} {lines : List Str} {a : Assembly} (
             ∃ b t y, relIndex s4.pkg.additional = some b ∧ a.stmts[b]? = some t ∧ addrNat t = some y ∧
               Target8 s4.pkg.additional y target) := by
   obtain ⟨st⟩ := assemble_stages h
-  refine ⟨st.ss4, fixAll_pw st.hfix, ?_⟩
+  refine ⟨st.ss4, fixAllL_pw st.hfix, ?_⟩
   intro i s4 s hs4 hs hn hc
   obtain ⟨s4', pre⟩ := st.abs_pre hs hn hc
   have : s4 = s4' := by have := pre.h4; rw [hs4] at this; exact Option.some.inj this
